@@ -91,8 +91,37 @@ fn check_network(len: usize, merger: Option<bool>, cache: bool) -> Result<u64, S
 pub fn key_val(kt: &Ty, k: u64) -> Val {
     match kt {
         Ty::Int(_) => Val::Int(k as i128),
+        Ty::Tuple(ts) if ts.len() == 2 && ts[1] == Ty::Bool => Val::Tuple(vec![Val::Int((k / 2) as i128), Val::Bool(k % 2 == 1)]),
         Ty::Tuple(ts) if ts.len() == 2 => Val::Tuple(vec![Val::Int((k / 3) as i128), Val::Int((k % 3) as i128)]),
+        // byte strings: the number in base 3 (most significant digit first, the first byte takes the rest)
+        Ty::Array(_, len) if *len > 0 => {
+            let mut digits = vec![];
+            let mut r = k;
+            for _ in 1..*len {
+                digits.push(Val::Int((r % 3) as i128));
+                r /= 3;
+            }
+            digits.push(Val::Int(r as i128));
+            digits.reverse();
+            Val::Array(digits)
+        }
         _ => panic!("harness: unsupported key type"),
+    }
+}
+
+/// Key types of joins: unsigned numbers and, with widths that are not powers of two, pairs and byte
+/// strings (keys are compared as bit strings over their whole width).
+pub fn join_key_type(rng: &mut Rng) -> Ty {
+    match rng.below(10) {
+        0 => Ty::Int(ints::U16),
+        1 => Ty::Int(ints::U32),
+        2 => Ty::Int(ints::U64),
+        3 => Ty::Tuple(vec![Ty::Int(ints::U8), Ty::Int(ints::U8)]),
+        4 => Ty::Tuple(vec![Ty::Int(ints::U16), Ty::Int(ints::U8)]),
+        5 => Ty::Tuple(vec![Ty::Int(ints::U8), Ty::Bool]),
+        6 => Ty::Array(Box::new(Ty::Int(ints::U8)), 3),
+        7 => Ty::Array(Box::new(Ty::Int(ints::U8)), 5),
+        _ => Ty::Int(ints::U8),
     }
 }
 
@@ -157,6 +186,8 @@ fn subsets(u: usize, k: usize) -> Vec<Vec<u64>> {
 pub fn key_universe_max(kt: &Ty) -> u64 {
     match kt {
         Ty::Int(t) => (t.max_val().min(u64::MAX as i128)) as u64,
+        Ty::Tuple(ts) if ts.len() == 2 && ts[1] == Ty::Bool => 255 * 2,
+        Ty::Array(_, len) if *len > 0 => 255 * 3u64.pow(*len as u32 - 1),
         _ => 255 * 3,
     }
 }
@@ -182,13 +213,9 @@ fn gen_join_builtin(rng: &mut Rng, max: usize) -> JoinCase {
     let n = if rng.chance(1, 8) { 0 } else { 1 + rng.usize_below(max) };
     let m = if rng.chance(1, 8) { 0 } else { 1 + rng.usize_below(max) };
     let pad = if n + m == 0 { ", z: bool" } else { "" };
-    let key = match rng.below(5) {
-        0 => Ty::Int(ints::U16),
-        1 => Ty::Int(ints::U32),
-        2 => Ty::Int(ints::U64),
-        _ => Ty::Int(ints::U8),
-    };
-    let assoc = rng.bool();
+    let key = join_key_type(rng);
+    // (rows that are tuples always are (key, data ..): a key that is a pair needs associated data)
+    let assoc = matches!(key, Ty::Tuple(_)) || rng.bool();
     let prims = [Ty::Bool, Ty::Int(ints::U8), Ty::Int(ints::I8), Ty::Int(ints::U16), Ty::Int(ints::I32), Ty::Int(ints::U64)];
     // (in 1 of 6 cases the associated data of both sides is zero-sized: the rows are tuples, but no wider than their key)
     let zero_sized_payloads = rng.chance(1, 6);
